@@ -238,3 +238,25 @@ let run_idlimit (parts : string list) : string =
       ((n + per_conn - 1) / per_conn) (if retried_ok then "ok" else "FAIL:c14-exhausted-connection-not-replaced")
 
 let () = register "idlimit" run_idlimit
+
+(* ---------- kind: streamwait (C14, round 9) ----------
+   case:   m=<limit> long=<ms> short=<ms>      result: short=E late=<0|1> || spec=..
+   extracted [so_within] with the mode of the code (no wait); the peer frees a stream when the long exchanges end. *)
+let run_streamwait (parts : string list) : string =
+  let f = fields parts in
+  let ok = so_within SoNoWait (nat_of_int (ifld f "short" / 100)) (nat_of_int 4) (Some (nat_of_int (ifld f "long" / 100))) in
+  Printf.sprintf "short=E late=%d || spec=%s" (if ok then 0 else 1) (if ok then "ok" else "FAIL:c14-stream-open-wait")
+
+let () = register "streamwait" run_streamwait
+
+(* ---------- kind: uptimeouts (C14, round 9) ----------
+   case: scheme=<..> opt=<ms>     result: idle=<ms> || spec=..     (extracted table [ut_idle], tenths of a second) *)
+let run_uptimeouts (parts : string list) : string =
+  let f = fields parts in
+  let s = (match fld f "scheme" with
+    | "udp" -> UtUdp | "tcp" -> UtTcp | "tcp+pipeline" -> UtTcpP | "tls" -> UtTls | "tls+pipeline" -> UtTlsP
+    | "https" -> UtHttps | x -> failwith ("uptimeouts: unknown scheme " ^ x)) in
+  let d = int_of_nat (ut_idle s (nat_of_int (ifld f "opt" / 100))) in
+  Printf.sprintf "idle=%d || spec=%s" (d * 100) (if d > 0 then "ok" else "FAIL:c14-no-idle-limit")
+
+let () = register "uptimeouts" run_uptimeouts
